@@ -9,7 +9,8 @@
   "run the update of a node once, after all its dependencies, and only if one of them changed" computes
   the solution of S's equations.
 
-  Hypotheses: `WellRanked sp rank` (the operand relation is acyclic), `Quiet sp` (no `value` stream created
+  Hypotheses: `WellRanked sp rank` (the operand relation is acyclic, and so is the value dependency of a
+  `holdz` on the cell of its Lazy: `valDeps`, which is not an edge of the scheduler's graph), `Quiet sp` (no `value` stream created
   in this very transaction — the only equation of S that fires without any operand firing; implied by
   `Static sp`), `EvOK sp ev` (events are injected at distinct input leaves).
 
@@ -92,7 +93,7 @@ def d1Prog : Spec :=
 
 def d1Ev : Events := [(1, 5), (0, 7)]
 
-theorem d1Prog_wellRanked : WellRanked d1Prog id := ⟨by decide, by decide⟩
+theorem d1Prog_wellRanked : WellRanked d1Prog id := ⟨by decide, by decide, by decide⟩
 theorem d1Prog_static : Static d1Prog := by decide
 theorem d1Prog_evOK : EvOK d1Prog d1Ev := ⟨by decide, by decide⟩
 
@@ -129,7 +130,7 @@ def freshProg : Spec := { defs := #[.csink 3, .value 0], created := #[1, 1], txn
 example : WellRanked freshProg id ∧ EvOK freshProg [] ∧ ¬ Quiet freshProg ∧
     fire (fireTable freshProg []) 1 = some 3 ∧
     ((transaction false (specF freshProg []) [] (specState freshProg)).nodes.get 1).val = none := by
-  refine ⟨⟨by decide, by decide⟩, ⟨by decide, by decide⟩, by decide, by decide, by decide⟩
+  refine ⟨⟨by decide, by decide, by decide⟩, ⟨by decide, by decide⟩, by decide, by decide, by decide⟩
 
 end Bridge
 end SodiumVerif
